@@ -32,7 +32,7 @@ ASSUMPTIONS = [
     "blocking is not modelled: a thread of model/Conc.v can always take its next step, so the theorem says nothing about calls "
     "waiting for each other. The translator lists package-level channels / sync primitives / atomics (pkg_sync_vars, obligation "
     "globals_no_sync_state: none today) and channel operations on package variables; at run time every phase of every batch runs "
-    "under a deadline (10 x estimated sequential time, at least 20 s, at most 90 s) and a phase that does not return is a violation of class "
+    "under a deadline (concurrent phase: 20 x estimated sequential time, at least 120 s, at most 600 s; sequential phase: 600 s - generous on purpose: race detector, GOMAXPROCS=1 and a loaded machine must not look like a deadlock) and a phase that does not return is a violation of class "
     "deadlock with the blocked goroutine stacks",
     "a library call is ONE thread of the model: the translator lists every go statement of in_toto, cmd and internal/spiffe "
     "(pkg_go_statements, obligation globals_no_go_statements: none today); goroutines started by dependencies are not inventoried",
@@ -87,7 +87,7 @@ def _run(ctx, spec, tag, seed_off=0, binp=None, env_extra=None):
     if seed_off:
         env['VERIF_SEED'] = str(ctx.seed + seed_off)
     # every phase of every batch has its own deadline inside the harness (exit 77); this outer limit is a backstop
-    rc, o = ctx.run([binp, 'run', work, out, g, str(rounds), procs, yld, mixes], timeout=(420 if ctx.tier == 'quick' else 2400), env=env)
+    rc, o = ctx.run([binp, 'run', work, out, g, str(rounds), procs, yld, mixes], timeout=(900 if ctx.tier == 'quick' else 3600), env=env)
     open(os.path.join(ctx.dir, 'run-%s.log' % tag), 'w').write(o)
     shutil.rmtree(work, ignore_errors=True)
     batches = [json.loads(l) for l in open(out)] if os.path.exists(out) else []
